@@ -819,6 +819,47 @@ fn cmd_fsmodel(args: &[String]) -> i32 {
     rc
 }
 
+/// Reach: the rare conditions each scenario is supposed to hit must actually be hit by its
+/// generator (a probe stuck at zero means the workload or the fault mix must change).
+fn cmd_probes(args: &[String]) -> i32 {
+    let runs: u64 = arg_val(args, "--runs").and_then(|s| s.parse().ok()).unwrap_or(3000);
+    let env = Arc::new(Env::load().unwrap_or_else(|e| die(&e)));
+    let known = Arc::new(KnownFindings::load(&format!("{}/known_findings.json", env.paths.verif)).unwrap_or_else(|e| die(&e)));
+    let required: Vec<(Scenario, Vec<&str>)> = vec![
+        (Scenario::Crashfree, vec!["probe.keypad_enter_or_equals", "probe.composition_ge_32", "probe.update_phonetic_to_fixed", "probe.update_fixed_to_phonetic", "probe.update_fixed_to_fixed", "probe.update_same_layout", "probe.learning_commit_saved_or_tried", "fault.process_restart", "op.ctrl_bs", "op.finish"]),
+        (Scenario::Wellformed, vec!["oracle.sel_in_range_judged", "oracle.aux_fixed_compared", "oracle.aux_phonetic_judged", "probe.composition_ge_32"]),
+        (Scenario::HistoryIndependence, vec!["oracle.C05_execution_compared", "fault.process_restart", "op.drain"]),
+        (Scenario::SessionReset, vec!["oracle.twin_compared", "oracle.idle_backspace_judged", "oracle.drain_liveness_judged", "oracle.empty_backspace_judged", "oracle.idle_after_terminator_judged", "probe.twin_forked", "probe.learning_commit_saved_or_tried"]),
+        (Scenario::LearnedDurability, vec!["oracle.L1_judged", "oracle.L2_judged", "oracle.L3_judged", "oracle.L4_store_shape_judged", "fault.process_restart"]),
+        (Scenario::UserfileFaults, vec![
+            "fault.crash_during_save", "fault.torn_inside", "fault.torn_at_0", "fault.file_truncate.Store", "fault.file_truncate.Autocorrect", "fault.file_document.Store", "fault.file_document.Autocorrect",
+            "fault.file_absent.Store", "fault.file_empty.Store", "fault.file_bitflip.Store", "fault.dir_Missing", "fault.dir_ReadOnly", "fault.save_open_fails.NotFound", "fault.save_open_fails.Access", "fault.save_open_fails.Rofs",
+            "fault.save_fails_after.NoSpace", "fault.save_fails_after.Io", "fault.power_loss_reverted_file", "fault.process_restart", "probe.created_over_unreadable_store", "probe.created_over_unreadable_autocorrect",
+            "oracle.F3_failed_save_judged", "oracle.F4_recovery_judged", "oracle.F4_new_context_judged", "oracle.twin_compared", "oracle.L1_planted_judged", "probe.update_phonetic_to_fixed",
+        ]),
+        (Scenario::Reconfigure, vec!["oracle.twin_compared", "probe.update_phonetic_to_fixed", "probe.update_fixed_to_phonetic", "probe.update_fixed_to_fixed", "probe.update_same_layout", "fault.file_document.Autocorrect", "fault.mtime_tie", "fault.mtime_regress", "probe.learning_commit_saved_or_tried"]),
+        (Scenario::FixedRules, vec!["oracle.C12_step_judged", "oracle.C12_backspace_judged"]),
+        (Scenario::Reph, vec!["oracle.reph_placement_judged", "oracle.reph_conservation_judged", "oracle.reph_off_judged", "probe.reph_on_empty"]),
+        (Scenario::KarOrderEquiv, vec!["oracle.C14_syllable_compared", "oracle.C14_pending_judged", "oracle.C14_pending_backspace_judged"]),
+    ];
+    let mut rc = 0;
+    for (scenario, names) in required {
+        let cfg = BatchCfg { scenario, tier: Tier::Quick, verif_seed: DEFAULT_SEED, runs, workers: workers_default(), wall_cap: Duration::from_secs(600), first_index: 0, tally: false };
+        let res = run_batch(&env, &known, &cfg);
+        if let Some(e) = res.harness_error {
+            die(&e);
+        }
+        let missing: Vec<&str> = names.iter().filter(|n| res.stats.get(n) == 0).cloned().collect();
+        if missing.is_empty() {
+            println!("probes {}: all {} required probes hit in {} runs", scenario.property(), names.len(), res.completed_runs);
+        } else {
+            println!("probes {}: NEVER HIT in {} runs: {}", scenario.property(), res.completed_runs, missing.join(", "));
+            rc = 2;
+        }
+    }
+    rc
+}
+
 fn cmd_show(args: &[String]) -> i32 {
     let prop = args.get(0).cloned().unwrap_or_else(|| die("show: property id missing"));
     let scenario = Scenario::from_property(&prop).unwrap_or_else(|| die("unknown property"));
@@ -890,6 +931,7 @@ fn main() {
         Some("digests") => cmd_digests(&args[1..]),
         Some("show") => cmd_show(&args[1..]),
         Some("fsmodel") => cmd_fsmodel(&args[1..]),
+        Some("probes") => cmd_probes(&args[1..]),
         Some("ffi-child") => ffi_run::cmd_child(&args[1..]),
         Some("ffi") => {
             let env = Arc::new(Env::load().unwrap_or_else(|e| die(&e)));
